@@ -36,7 +36,7 @@ PKG = ng.PKG
 
 INVS = ("INVARIANT TypeOK\nINVARIANT PublicPathIsSchemaName\nINVARIANT NoScopeClash\n"
         "INVARIANT NoSelfNamedMember\nINVARIANT TagPathsUnique\nINVARIANT ManglingShape\n")
-CLASH_SKELETONS = ["T1", "T2", "T3", "T4", "M1", "M2", "M3", "X1"]
+CLASH_SKELETONS = ["T1", "T2", "T3", "T4", "M1", "M2", "M3", "X1", "U1", "U2"]
 # (skeleton, part of the discipline left out) -> TLC has to find a violated requirement
 FLAWS = [("M1", "entry"), ("T1", "member"), ("T2", "inline"), ("T1", "types")]
 
@@ -56,7 +56,7 @@ def literal_jobs():
         J.append(("lit_" + p, 'LitSk("%s", {"none", "sbe", "rep", "special"})' % p))
         if p not in ("float", "double"):
             J.append(("lz_" + p, 'LitSk("%s", {"lz"})' % p))
-    J += [("enums", "SkEnums"), ("sets", "SkSets"), ("strings", "SkStrings")]
+    J += [("enums", "SkEnums"), ("sets", "SkSets"), ("strings", "SkStrings"), ("case", "SkCase")]
     J += [("desc_" + c, 'DescSk("%s")' % c) for c in DESC_CLASSES]
     for lvl, tag in (("message", "m"), ("group", "g")):
         for hp, ns in (("uint8", (255, 256)), ("uint16", (65535, 65536))):
@@ -267,6 +267,13 @@ def run(v, tier, seed):
                 if rule in x.fired and x not in chosen:
                     chosen.append(x)
                     have.append(x)
+        for sk in CLASH_SKELETONS:                 # ... and every rule once in every skeleton where it can fire
+            for rule in rules:
+                if not any(y.sk == sk and rule in y.fired for y in chosen):
+                    for x in pool:
+                        if x.sk == sk and rule in x.fired:
+                            chosen.append(x)
+                            break
         for sk in CLASH_SKELETONS:
             for x in pool:
                 if len([y for y in chosen if y.sk == sk]) >= 4:
@@ -413,8 +420,8 @@ def run(v, tier, seed):
                ("thorough: every assignment under one configuration of the 15 (rotating), 36 seeded ones and the fixed / "
                 "literal families under several; literal main schemas: every header alone under 2 configurations, top "
                 "header + touch TU under the other 13." if thorough else
-                "quick: seeded sample of clash assignments covering every rule of the mangling discipline twice and every "
-                "skeleton four times + 6 library identifiers + all keywords + the whole literal "
+                "quick: seeded sample of clash assignments covering every rule of the mangling discipline twice, once in "
+                "every skeleton where it can fire, and every skeleton four times + 6 library identifiers + all keywords + the whole literal "
                 "matrix, g++ c++11 and clang++ c++20 (literal schemas: every header alone under g++ c++11, top header + "
                 "touch TU under clang++ c++20)."),
           samples=samples, exhaustive=False)
